@@ -1,5 +1,6 @@
 import LZ4V.HC.HC4
 import LZ4V.Proofs.BlockHub
+import LZ4V.Proofs.Arith
 /-!
 # From the hash-chain parser to the block: whatever the match finder answers (within its contract), the block decodes to the input
 
@@ -192,6 +193,60 @@ theorem chained_verified_sequences_decode (hist block : List UInt8) (es : List E
     obtain ⟨e, he, rfl⟩ := List.mem_map.mp hs
     obtain ⟨_, h2, h3, h4, _⟩ := hok e he
     exact ⟨h2, by show e.off < 65536; omega⟩) hv
+
+/-- chained sequences cover exactly `[a, a')`: literals and matches add up -/
+theorem chain_covered (data : List UInt8) : ∀ (es : List Emit) (a a' : Nat), Chain a es a' → (∀ e ∈ es, EmitOK data e) → a ≤ data.length →
+    covered (es.map (toSeq data)) (data.drop a') + a = data.length := by
+  intro es
+  induction es with
+  | nil =>
+    intro a a' h _ ha
+    simp only [Chain] at h
+    subst h
+    simp only [List.map_nil, covered, List.sum_nil, List.length_drop]
+    omega
+  | cons e t ih =>
+    intro a a' h hok ha
+    obtain ⟨hea, hrest⟩ := h
+    obtain ⟨h1, h2, h3, h4, h5, h6, h7⟩ := hok e List.mem_cons_self
+    subst hea
+    have := ih _ _ hrest (fun x hx => hok x (List.mem_cons_of_mem _ hx)) h6
+    have hl : (toSeq data e).lits.length = e.ip - e.anchor := by
+      show ((data.drop e.anchor).take (e.ip - e.anchor)).length = _
+      rw [List.length_take, List.length_drop]; omega
+    have hm : (toSeq data e).ml = e.len := rfl
+    simp only [List.map_cons, covered, List.sum_cons, hl, hm] at this ⊢
+    omega
+
+/-- **within the bound**: whatever the finders answer within their contract, the block is at most `n + n/255 + 2` bytes (below `LZ4_compressBound n`) -/
+theorem compressH_size (hist block : List UInt8) (o : Oracle) (hO : OracleOK (hist ++ block) o) (fuel : Nat) (blk : List UInt8)
+    (h : compressH o hist block fuel = some blk) : blk.length ≤ block.length + block.length / 255 + 2 := by
+  unfold compressH at h
+  split at h
+  · simp only [Option.some.injEq] at h
+    subst h
+    have := serialize_length_le [] block (fun s hs => (List.not_mem_nil hs).elim)
+    simpa [covered] using this
+  · have hc := run_chain o (hist.length + block.length - 12) fuel (.main hist.length hist.length)
+    have hok := (run_ok (hist ++ block) o hO (hist.length + block.length - 12) fuel (.main hist.length hist.length) (Nat.le_refl _)).2
+    generalize run o (hist.length + block.length - 12) fuel (.main hist.length hist.length) = r at h hc hok
+    obtain ⟨pc, es⟩ := r
+    cases pc with
+    | done a =>
+      simp only [Option.some.injEq] at h
+      subst h
+      dsimp only [anchorOf] at hc
+      have hcov := chain_covered (hist ++ block) es hist.length a hc hok (by rw [List.length_append]; omega)
+      rw [List.length_append] at hcov
+      have := serialize_length_le (es.map (toSeq (hist ++ block))) ((hist ++ block).drop a) (fun s hs => by
+        obtain ⟨e, he, rfl⟩ := List.mem_map.mp hs
+        exact (hok e he).2.1)
+      have e : covered (es.map (toSeq (hist ++ block))) ((hist ++ block).drop a) = block.length := by omega
+      rw [e] at this
+      exact this
+    | main _ _ => cases h
+    | search2 _ _ _ _ _ => cases h
+    | search3 _ _ _ _ _ _ _ => cases h
 
 /-- executable premises -/
 def chainB : Nat → List Emit → Option Nat
